@@ -122,6 +122,76 @@ def trans_check(case):
     return Res(list(seen.items()), o=(nc, ns % CHUNK, mode), tr=ntr)
 
 
+# ------------------------------------------------------------------ reader options x metadata that disagrees with the data
+def option_cases(tier, seed):
+    out = []
+    for nc in (3, 5):
+        for ns in (2 * CHUNK + 3, 5 * CHUNK):
+            for delta in (0, -5, -1, 1, 9, 700):
+                if ns + delta < 1:
+                    continue
+                for iw in (False, True):
+                    for sort in (False, True):
+                        out.append((nc, ns, delta, iw, sort))
+    return out
+
+
+def option_check(case):
+    """
+    the metadata announces ns + delta samples (interrupted acquisition, chopped / streamed file) while the data - flat or compressed - hold ns:
+    with every reader option the compressed recording and its original still look the same through the reader
+    """
+    nc, ns, delta, iw, sort = case
+    d = synth.proc_scratch(clean=True)
+    fbin, data = _make(d, ns, nc, "separating")
+    fcbin = _compress(fbin, keep_original=True)
+    fmeta = str(Path(fbin).with_suffix(".meta"))
+    if delta:
+        lines = []
+        for line in open(fmeta).read().splitlines():
+            if line.startswith("fileTimeSecs="):
+                line = "fileTimeSecs=%r" % ((ns + delta) / FS)
+            elif line.startswith("fileSizeBytes="):
+                line = "fileSizeBytes=%d" % ((ns + delta) * nc * 2)
+            lines.append(line)
+        with open(fmeta, "w") as fh:
+            fh.write("\n".join(lines) + "\n")
+    seen = {}
+    ctx = "ns=%d nc=%d, metadata announcing %d samples, ignore_warnings=%s sort=%s" % (ns, nc, ns + delta, iw, sort)
+    ntr = 0
+    srb = src = None
+    try:
+        srb = spikeglx.Reader(fbin, ignore_warnings=iw, sort=sort)
+        src = spikeglx.Reader(fcbin, ignore_warnings=iw, sort=sort)
+        if tuple(src.shape) != tuple(srb.shape) or src.ns != srb.ns or src.rl != srb.rl:
+            seen.setdefault("options:shape", "%s: the compressed recording has shape %r (ns %r, %.6g s) through the reader, its original %r (ns %r, %.6g s)"
+                            % (ctx, tuple(src.shape), src.ns, src.rl, tuple(srb.shape), srb.ns, srb.rl))
+        if tuple(srb.shape) != (ns, nc):
+            seen.setdefault("options:shape-of-data", "%s: the reader announces shape %r for a file holding %d complete samples" % (ctx, tuple(srb.shape), ns))
+        for sl in (slice(None), slice(-3, None), slice(None, None, -1), slice(None, None, -2), slice(ns - 1, ns + 5), slice(CHUNK - 1, CHUNK + 2), -1, 0):
+            ntr += 1
+            try:
+                x, y = srb[sl], src[sl]
+            except Exception as e:
+                seen.setdefault("options:exc:%s" % type(e).__name__, "%s: sr[%r] raised %s: %s" % (ctx, sl, type(e).__name__, e))
+                continue
+            ref = data[sl]
+            if x.shape != y.shape or not np.array_equal(x, y):
+                seen.setdefault("options:values", "%s: sr[%r] differs between the compressed recording %r and its original %r" % (ctx, sl, y.shape, x.shape))
+            elif x.shape != ref.shape:
+                seen.setdefault("options:shape-of-selection", "%s: sr[%r] has shape %r, the same selection of the samples on disk %r" % (ctx, sl, x.shape, ref.shape))
+    except Exception as e:
+        seen.setdefault("options:open:%s" % type(e).__name__, "%s: %s: %s" % (ctx, type(e).__name__, e))
+    finally:
+        for sr in (srb, src):
+            try:
+                if sr is not None:
+                    sr.close()
+            except Exception:
+                pass
+    return Res(list(seen.items()), o=(delta == 0, delta > 0, iw, sort), tr=ntr)
+
+
 # ------------------------------------------------------------------ entry points
 def entry_cases(tier, seed):
     return [(present, handed) for present in ("bin", "cbin", "both") for handed in ("bin", "cbin", "meta")]
@@ -383,6 +453,8 @@ CHECK = {
         Clause("long-reads", "compressed and uncompressed recording longer than every block size mined from the reader's source: strided / reversed slices against NumPy indexing",
                cases=lambda tier, seed: __import__("checks.c01", fromlist=["x"]).long_cases(tier, seed),
                check=lambda case: __import__("checks.c01", fromlist=["x"]).long_check(case)),
+        Clause("reader-options", "ignore_warnings x sort x metadata announcing more / fewer samples than the (flat or compressed) data hold: compressed and original indistinguishable",
+               cases=option_cases, check=option_check),
         Clause("entry-points", "bin / cbin / meta path x which files exist", cases=entry_cases, check=entry_check),
         Clause("faults-from-bin", "histories with crashes starting from an uncompressed recording", run=_mk("bin"), replay=_replay),
         Clause("faults-from-cbin", "histories with crashes starting from a compressed recording", run=_mk("cbin"), replay=_replay),
